@@ -191,8 +191,21 @@ pub fn load_known_findings() -> Vec<KnownFinding> {
     }
 }
 
+/// ids of the findings listed OPEN for the property being run (set once per process by
+/// `RunCtx::new`). A classifier whose signatures overlap uses it to prefer an open finding over
+/// a fixed one: a failing case that meets an open finding's signature is that finding, whatever
+/// fixed finding's signature it also happens to meet. (It never turns an unlisted class into a
+/// known one: `Verdict::Known` is still only accepted by the runner when listed open.)
+static OPEN_IDS: std::sync::OnceLock<std::collections::BTreeSet<String>> = std::sync::OnceLock::new();
+
+pub fn is_open_id(id: &str) -> bool {
+    OPEN_IDS.get().map(|s| s.contains(id)).unwrap_or(false)
+}
+
 impl RunCtx {
     pub fn new(property: &str, tier: Tier, seed: u64) -> Self {
+        let known = load_known_findings();
+        let _ = OPEN_IDS.set(known.iter().filter(|k| k.property == property && k.status == "open").map(|k| k.id.clone()).collect());
         RunCtx {
             property: property.to_string(),
             tier,
